@@ -48,6 +48,9 @@ P['C06'] = dict(cat='other', tech='finite-model walk of the CFG (A7) against the
 P['C07'] = dict(cat='other', tech='finite-model evaluation of guard prefixes over the CFG (A7) against a transcribed contract table; structural loop rules; catch-order analysis of the SWIG interface',
    text='Partial claim: on every row of a finite model of the compared quantities, must-refuse rows end in the documented exception class before any store and must-accept rows reach the store; label/duplicate rules hold structurally; the binding maps every thrown class to the documented scripting exception. Does not decide acceptance beyond the guard tables.',
    note='Trusts spec/api_contract.json. ' + TB, ref='4/C07')
+P['C10'] = dict(cat='other', tech='nothing-after path rule on the event-level CFG with effect sets (A3) and may-throw summaries (A4) incl. validated-index, forall-guard and guard-subsumption discharge lemmas',
+   text='Partial claim: in every public mutator, the typed setters and Group::parameter no explicit throw and no may-throw call is reachable after the first modification of the object, except the four updater-after-store instances recorded as known findings (K4, replayed). Does not take run-time snapshots.',
+   note='Allocation failure excluded; std throwers from a closed table. ' + TB, ref='4/C10')
 NA = {
  'C19': 'compares compiled artefacts across optimisation levels / link kinds; not decidable from source without running the builds (DESIGN 4/C19)',
 }
